@@ -536,3 +536,30 @@ def mroot(eng, st, lst):
         eng.add_func_axiom(z3.Implies(n >= 2, root(lt) == root(pair(lt, half))))
         _mpair_unfold(eng, st, lt, half)
     return V(root(lt), BYTES)
+
+
+# ---- C18: the checkpoint table as pinned when the contracts were written (consensus data) ---------------------------------
+
+def pinned_checkpoints():
+    import json, os
+    d = json.load(open(os.path.join(os.path.dirname(os.path.abspath(__file__)), 'checkpoints_pinned.json')))
+    return d['max_height'], {int(k): bytes.fromhex(v) for k, v in d['table'].items()}
+
+
+@GH.ghost('is_checkpoint')
+def is_checkpoint(eng, st, h):
+    _m, table = pinned_checkpoints()
+    ht = eng.term(h, INT)
+    return V(z3.Or(*[ht == k for k in sorted(table)]), BOOL)
+
+
+@GH.ghost('checkpoint')
+def checkpoint(eng, st, h):
+    from pyvc.engine import bytes_term
+    _m, table = pinned_checkpoints()
+    ht = eng.term(h, INT)
+    ks = sorted(table)
+    t = bytes_term(table[ks[-1]])
+    for k in reversed(ks[:-1]):
+        t = z3.If(ht == k, bytes_term(table[k]), t)
+    return V(t, BYTES)
